@@ -112,8 +112,8 @@ def run(ctx, driver):
                 "linear shape (function of time / n-th order ODE / chain of first-order ODEs, optionally read by another equation); both sides analysed by the real code; "
                 "success status, analytic sets and update maps / initial values (as values at corresponding random points) compared; distinct = distinct pairs; "
                 "non-trivial = both sides analysed successfully with >= 2 state variables")
-    cases = gen_cases(ctx, 60 if quick else 1200)
-    results = pool.run_cases("harness.core.cases", "case_twin", cases, timeout=90 if quick else 200, init="init_worker", deadline=ctx.deadline())
+    cases = gen_cases(ctx, ctx.n(60, 1200))
+    results = pool.run_cases("harness.core.cases", "case_twin", cases, timeout=ctx.n(90, 200), init="init_worker", deadline=ctx.deadline())
     for case, res in zip(cases, results):
         ctx.evaluations += 1
         if not _shared.usable(ctx, res):
